@@ -170,7 +170,11 @@ class Base:
         :param annotations:         A frozenset of annotations applied onto this AST.
         """
 
-        if hash is not None and (self := cls._hash_cache.get(hash, None)) is not None:
+        if (
+            hash is not None
+            and (self := cls._hash_cache.get(hash, None)) is not None
+            and self._is_pickled_node(op, args, length, annotations)
+        ):
             return self
 
         a_args = args if type(args) is tuple else tuple(args)
@@ -232,6 +236,37 @@ class Base:
         #         raise Exception("CRAP -- hash collision")
 
         return self
+
+    def _is_pickled_node(self, op, args, length, annotations) -> bool:
+        """
+        Whether this live node is the one a pickled state describes. A pickled hash alone does not say so: the hash of a
+        node takes an annotation without a content-based hash through its identity hash (its address), and the address
+        of a dead annotation is reused for new objects, so a stale hash can key a different live node. Answering False
+        is always safe: the node is then built the ordinary way.
+        """
+        if (
+            self.op != op
+            or self.length != length
+            or len(self.args) != len(args)
+            or len(self.annotations) != len(annotations)
+        ):
+            return False
+        try:
+            for mine, theirs in zip(self.args, args, strict=True):
+                if isinstance(mine, Base) or isinstance(theirs, Base):
+                    if mine is not theirs:
+                        return False
+                elif type(mine) is not type(theirs) or mine != theirs:
+                    return False
+            for mine, theirs in zip(self.annotations, annotations, strict=True):
+                if mine is theirs or mine == theirs:
+                    continue
+                # an annotation class without __eq__: the unpickled copy is never the live object
+                if type(mine) is not type(theirs) or type(mine).__eq__ is not object.__eq__ or vars(mine) != vars(theirs):
+                    return False
+        except Exception:  # pylint:disable=broad-except
+            return False
+        return True
 
     def make_like(
         self,
